@@ -10,8 +10,8 @@ cargo test --offline --lib 2>&1 | grep "test result" | head -1
 cargo test --offline --doc 2>&1 | grep "test result" | tail -1
 echo "== demo with the change (must fail)"
 RUSTFLAGS="$flags" cargo test --offline --test demo_$id --target-dir target/demo 2>&1 | grep -E "test result|error\[" | head -3
-git stash push -q -- src
+git diff -- src > /tmp/seedverify_$id.diff; git checkout -q -- src   # (git stash is shared between worktrees)
 echo "== demo without the change (must pass)"
 RUSTFLAGS="$flags" cargo test --offline --test demo_$id --target-dir target/demo 2>&1 | grep -E "test result|error\[" | head -3
-git stash pop -q
+git apply /tmp/seedverify_$id.diff && rm -f /tmp/seedverify_$id.diff
 git diff -- src | cmp -s - patch.diff && echo "patch.diff current" || echo "patch.diff DIFFERS"
